@@ -1828,6 +1828,10 @@ class Data(BaseCartesianData):
                         # then also take into account the subarray slices in this
                         # case.
                         mask = mask[subarray_slices]
+                    else:
+                        # The values are not restricted to the subarray, so the
+                        # result should not be padded further down
+                        subarray_slices = None
 
                     data = self.get_data(cid, view)
 
